@@ -1355,6 +1355,10 @@ class Real(base.SimpleAsn1Type):
                     raise error.PyAsn1Error(
                         'Bad real value syntax: %s' % (value,)
                     )
+            if value != value:
+                raise error.PyAsn1Error(
+                    'Bad real value syntax: %s' % (value,)
+                )
             if self._inf and value in self._inf:
                 return value
             else:
